@@ -94,15 +94,33 @@ def add_assertions(rng, prog, n_max=6):
             e = {"lit": False}
         else:
             asc = rng.random() < 0.5
-            k = rng.choice([1, 1, 1, 2])
+            k = rng.choice([1, 1, 1, 2, 2])  # (a third link would compare the compound's truth value: unsupported)
             ops = [rng.choice(["<", "<="] if asc else [">", ">="]) for _ in range(k)]
+
+            chosen = []
+
+            def overlapping():
+                """priors whose support overlaps that of the priors already in this chain (a chain whose
+                operands cannot be ordered both ways is decided by the limits alone)"""
+                if not chosen:
+                    return priors
+                lo = max(float(H[h].lower_limit) for h in chosen)
+                hi = min(float(H[h].upper_limit) for h in chosen)
+                return [h for h in priors if float(H[h].lower_limit) < hi and float(H[h].upper_limit) > lo] or priors
 
             def operand(force_obj=False):
                 r = rng.random()
-                if r < 0.6 or force_obj:
-                    if exprs and rng.random() < 0.25:
+                if r < 0.6 or force_obj or (k >= 2 and r < 0.85):
+                    if exprs and rng.random() < 0.25 and k < 2:
                         return {"h": rng.choice(exprs)}
-                    return {"h": rng.choice(priors)}
+                    h = rng.choice(overlapping())
+                    chosen.append(h)
+                    return {"h": h}
+                if chosen:
+                    lo = max(float(H[h].lower_limit) for h in chosen)
+                    hi = min(float(H[h].upper_limit) for h in chosen)
+                    if lo < hi and math.isfinite(lo) and math.isfinite(hi) and rng.random() < 0.7:
+                        return rng.uniform(lo, hi)
                 return rng.uniform(-40, 40)
 
             operands = [operand() for _ in range(k + 1)]
@@ -191,6 +209,40 @@ def vectors(rng, model, prog, H):
                 j, c = (rank[lo.id], ro) if lp else (rank[ro.id], lo)
                 v[j] = {"eq": c, "up": math.nextafter(c, math.inf), "down": math.nextafter(c, -math.inf), "swap": c}[mode]
                 out.append(("const-edge", v))
+    # chains of two or more links: every relative order of the operands (the verdict of a chain is that of
+    # each *adjacent* pair; which operands a link compares only shows when a non-adjacent pair is ordered
+    # differently), realised inside the limits where the supports of the operands overlap
+    import itertools
+    for s in asserts[:3]:
+        operands = s["expr"]["operands"]
+        if len(operands) < 3:
+            continue
+        slots = []
+        for o in operands:
+            obj = H[o["h"]] if isinstance(o, dict) else o
+            if isinstance(obj, Prior) and obj.id in rank:
+                slots.append(("p", rank[obj.id], float(obj.lower_limit), float(obj.upper_limit)))
+            elif isinstance(obj, float):
+                slots.append(("c", obj))
+            else:
+                slots = None
+                break
+        if not slots or len({sl[1] for sl in slots if sl[0] == "p"}) < 2:
+            continue
+        lo = max([sl[2] for sl in slots if sl[0] == "p"] + [-1e6])
+        hi = min([sl[3] for sl in slots if sl[0] == "p"] + [1e6])
+        if not lo < hi:
+            continue
+        consts = [sl[1] for sl in slots if sl[0] == "c" and lo <= sl[1] <= hi]
+        cands = sorted(set(consts + [lo + (hi - lo) * q for q in (0.2, 0.5, 0.8)]))
+        pidx = sorted({sl[1] for sl in slots if sl[0] == "p"})
+        combos = list(itertools.product(cands, repeat=len(pidx)))
+        rng.shuffle(combos)
+        for combo in combos[:14]:
+            v = list(base)
+            for j, x in zip(pidx, combo):
+                v[j] = x
+            out.append(("chain-order", v))
     return out
 
 
